@@ -63,7 +63,9 @@ try:
     meta['checks'] = {}
     for c in checks:
         e2 = dict(os.environ, FURAX_REPO=str(wt), VERIF_EVIDENCE_DIR='/var/tmp/mut-evidence')
-        rc = sh(f'cd /verif && timeout 3000 ./check {c} --tier quick', env=e2)
+        snap = os.environ.get('VERIF_SNAP', '/verif')     # a snapshot of /verif, so that /verif can be edited meanwhile
+        rc = sh(f'cd {snap} && timeout 3000 /venv/bin/python {snap}/harness/main.py {c} --tier quick', env=e2)
+        meta['verif_commit'] = subprocess.run(['git', '-C', '/verif', 'log', '--format=%h', '-1'], capture_output=True, text=True).stdout.strip()
         lines = [l for l in rc.stdout.splitlines() if l.startswith('VIOLATION')]
         meta['checks'][c] = {'exit': rc.returncode, 'violations': len(lines), 'first': [l[:220] for l in lines[:3]]}
     meta['confirmed'] = (meta['demo_without_change_exit'] == 0 and meta['demo_with_change_exit'] != 0
